@@ -103,6 +103,7 @@ class IoWorld(World):
         # generator state
         self.pending = {}
         self.want_roundtrip = 0
+        self.faults_so_far = 0
 
     def teardown(self):
         simfs.uninstall()
@@ -411,6 +412,7 @@ class IoWorld(World):
         kind = plan.kind
         if fired:
             self.stats["fault_fired:" + kind] += 1
+            self.faults_so_far += 1
         elif kind:
             self.stats["fault_not_reached:" + kind] += 1
         plan.clear()
@@ -813,6 +815,13 @@ class IoWorld(World):
         self.observed(cls)
 
     # ----------------------------------------------------------------- oracles
+    def probe(self, name, n=1):
+        World.probe(self, name, n)
+        if name.startswith("roundtrip_ok_") and self.faults_so_far:
+            # bounded liveness with a budget of zero steps: once faults have happened, every
+            # later acknowledged write / read pair still round-trips
+            World.probe(self, "roundtrip_ok_after_faults")
+
     def _tol(self, kind, fmt):
         if fmt.startswith("gpx"):
             return 5.0001e-9
